@@ -27,7 +27,19 @@ fn label_entry_lines(p: &Program, pr: &Printed) -> std::collections::HashMap<Str
                     break;
                 }
                 // a label names what follows it: data, or the end of its segment, are no instruction
-                if matches!(&p.lines[j], Line::Data(_) | Line::SecData | Line::SecText) {
+                // (a directive that names the segment the program is already in changes nothing)
+                let in_data = p.lines[..j].iter().rev().find_map(|l| match l {
+                    Line::SecData => Some(true),
+                    Line::SecText => Some(false),
+                    _ => None,
+                }) == Some(true);
+                let ends = match &p.lines[j] {
+                    Line::Data(_) => true,
+                    Line::SecData => !in_data,
+                    Line::SecText => in_data,
+                    _ => false,
+                };
+                if ends {
                     break;
                 }
             }
